@@ -188,6 +188,11 @@ func scenC13(r *Run) {
 			default:
 				// lying frame: whatever was processed must be within the limit (checked above)
 				// and a frame that declares or carries more than the limit gets no normal answer
+				if over && kind == "udp" && (dio != 0 || dfn != 0) {
+					// a datagram is received whole: what counts is what it carries
+					r.Fail("C13:over-limit-processed:"+kind+":"+decl, "limit %d: a datagram carrying %d body bytes (%s) was processed: IO plugin ran %d times, function %d times", L, size, decl, dio, dfn)
+					return
+				}
 				if over && o.rawStatus == "normal-response" && decl == "declared-larger" {
 					r.Fail("C13:no-too-large-signal:"+kind+":"+decl, "limit %d, %d bytes sent: normal response", L, size)
 					return
@@ -254,7 +259,9 @@ func rawLyingFrame(fx *Fixture, body []byte, smaller bool, limit int) (status st
 	if fx.Kind == "udp" {
 		c, _ := fx.UDP.Dial(fx.udpSrv)
 		c.Write(append(udpHeader(decl&0xffff, 3), body...))
-		// a refusal or nothing: do not wait for an answer that may never come
+		// a refusal or nothing: wait a little (fake time) for whatever the server does with it
+		time.Sleep(50 * time.Millisecond)
+		verifsim.ForceYield(-9)
 		return "sent", nil, nil
 	}
 	c := rawStream(fx)
